@@ -36,6 +36,25 @@ class Probe(lk.Model):
         return S
 
 
+class Spy(lk.Model):
+    """two-port revealing EVERY key of its working dictionary: transmission = sum_k 2^-(k+1) * value(q_k)"""
+
+    def __init__(self, defaults):
+        super().__init__(pin_dic={Pin("a0"): 0, Pin("b0"): 1}, param_dic=dict(defaults))
+
+    def create_S(self):
+        v = 0.0
+        for k in range(8):
+            x = self.param_dic.get(pn(k))
+            if x is not None:
+                v = v + x / 2.0 ** (k + 1)
+        S = np.zeros((2, 2), complex)
+        S[0, 1] = v
+        S[1, 0] = v
+        self.S = S
+        return S
+
+
 FUNCS = {0: (1, lambda x: 2 * x + 1), 1: (2, lambda x, y: x + 2 * y), 2: (1, lambda x: x / 2)}
 
 
@@ -65,13 +84,15 @@ def gen_rmap(rng, names_hint):
     return pairs
 
 
-def gen_tree(rng, depth):
+def gen_tree(rng, depth, spy_p=0.0):
     if depth == 0 or rng.random() < 0.3:
+        if rng.random() < spy_p:
+            return {"spy": [[k, rq(rng)] for k in rng.sample(POOL, rng.randint(0, 2))]}
         return {"leaf": rng.choice(POOL), "default": rq(rng)}
     nchild = rng.randint(1, 3)
     children = []
     for _ in range(nchild):
-        c = gen_tree(rng, depth - 1)
+        c = gen_tree(rng, depth - 1, spy_p)
         children.append({"rmap": gen_rmap(rng, None), "node": c})
     sdef = {}
     for _ in range(rng.choice([0, 0, 1, 2])):
@@ -92,6 +113,8 @@ def visible_defaults(node):
     """mirror of what add_structure collects: used only to keep add_param applicable"""
     if "leaf" in node:
         return {node["leaf"]}
+    if "spy" in node:
+        return {k for k, _ in node["spy"]}
     out = set()
     for ch in node["children"]:
         inv = {o: n for o, n in ch["rmap"]}
@@ -106,7 +129,7 @@ def visible_defaults(node):
 
 def sanitize(node):
     """add_param pops the old name from default_params: it must be visible there"""
-    if "leaf" in node:
+    if "leaf" in node or "spy" in node:
         return
     for ch in node["children"]:
         sanitize(ch["node"])
@@ -115,13 +138,16 @@ def sanitize(node):
     node["adds"] = [a for a in saved if a["name"] in vis]
 
 
-def build(node, counter):
-    """returns (object to put, list of exposed pin-name pairs [(a,b)] in DFS leaf order)"""
+def build(node, counter, registry=None, path=()):
+    """returns (object to put, list of exposed pin-name pairs [(a,b)] in DFS leaf order);
+    registry[path] = (solver, pairs) for every solver of the hierarchy"""
     if "leaf" in node:
         return Probe(pn(node["leaf"]), node["default"]), None
+    if "spy" in node:
+        return Spy({pn(k): v for k, v in node["spy"]}), None
     kids = []
-    for ch in node["children"]:
-        kids.append(build(ch["node"], counter))
+    for i, ch in enumerate(node["children"]):
+        kids.append(build(ch["node"], counter, registry, path + (i,)))
     pairs = []
     with lk.Solver() as S:
         for ch, (obj, sub_pairs) in zip(node["children"], kids):
@@ -149,6 +175,8 @@ def build(node, counter):
                 # a solver default given AFTER the definition must be honoured by the function
                 x, d = a["args"][0]
                 S.set_param(pn(x), d + 0.75)
+    if registry is not None:
+        registry[path] = (S, pairs)
     return S, pairs
 
 
@@ -164,6 +192,8 @@ def dict_lit(pairs):
 def tree_lit(node):
     if "leaf" in node:
         return f"PLeaf {cnat(node['leaf'])} {qlit(node['default'])}"
+    if "spy" in node:
+        return f"PSpy {dict_lit(node['spy'])}"
     kids = clist("(%s, %s)" % (clist(f"({cnat(n)}, {cnat(o)})" for o, n in ch["rmap"]), tree_lit(ch["node"]))
                  for ch in node["children"])
     adds, after = [], []
